@@ -263,6 +263,17 @@ func runC32(c *Ctx) {
 			c.Held(fn, nil, m+": the counter is reset while the shards are locked out", c.CallsD(fn, "atomic.StoreInt64(&l.length, 0)"), 1, "&l.l", LW)
 		}
 	}
+	// Close/Empty of a sharded map reach every shard while the map lock is held exclusively: an operation
+	// that fetched its shard before Close() must find that shard closed (and fail) afterwards — a shard
+	// that is only dropped from the list still accepts the in-flight write, which then succeeds on a map
+	// nobody can read (no sequential history explains a successful set after Close)
+	for _, m := range []string{"Close", "Empty"} {
+		if fn := c.Need("util.(*ShardedMap[K,V])." + m); fn != nil {
+			calls := c.CallsD(fn, "l.sharded[ι]."+m+"()")
+			c.Held(fn, nil, m+": every shard is "+strings.ToLower(m)+"d with the map lock held exclusively", calls, 1, "&l.l", LW)
+			c.ForEach(fn, m+": reaches every shard (a missing shard holds nothing)", "(ι < len(l.sharded))", 1, GCalled("l.sharded[ι]."+m+"()"), GNil("l.sharded[ι]"))
+		}
+	}
 	// R32.3 --------------------------------------------------------------------------------------
 	c.Rule("R32.3", "MustPass")
 	for _, m := range []string{"SetValue", "EmptyValue", "GetOrCreate", "Set", "Empty"} {
